@@ -9,26 +9,34 @@ Open Scope N_scope.
 Record cspec := mk_cspec {
   sp_meta_w : option label; sp_meta_wo : option label;
   sp_vsh : option label; sp_ash : option label;
+  sp_vsh_p : option (list N); sp_ash_p : option (list N);   (* content of the headers in force *)
   sp_gops : list (list label)      (* every GOP since the input started, oldest first *)
 }.
 
 Definition cspec_init : cspec :=
-  {| sp_meta_w := None; sp_meta_wo := None; sp_vsh := None; sp_ash := None; sp_gops := [] |}.
+  {| sp_meta_w := None; sp_meta_wo := None; sp_vsh := None; sp_ash := None; sp_vsh_p := None; sp_ash_p := None; sp_gops := [] |}.
 
 (* one non-empty published message, seen by a cache that stores item [b] for
    it ([w]/[wo]: the metadata forms it keeps) *)
-Definition cspec_feed (gop_num max : nat) (sp : cspec) (cls : mclass) (b w wo : label) : cspec :=
+Definition cspec_feed (gop_num max : nat) (sp : cspec) (cls : mclass) (b w wo : label) (p : list N) : cspec :=
   {| sp_meta_w := match cls with MMeta => Some w | _ => sp_meta_w sp end;
      sp_meta_wo := match cls with MMeta => Some wo | _ => sp_meta_wo sp end;
      sp_vsh := match cls with MVsh => Some b | _ => sp_vsh sp end;
      sp_ash := match cls with MAsh => Some b | _ => sp_ash sp end;
-     sp_gops := if Nat.ltb 0 gop_num then gops_feed max (sp_gops sp) cls b else sp_gops sp |}.
+     sp_vsh_p := match cls with MVsh => Some p | _ => sp_vsh_p sp end;
+     sp_ash_p := match cls with MAsh => Some p | _ => sp_ash_p sp end;
+     sp_gops := match cls with
+                | MVsh => if hdr_changed (sp_vsh_p sp) p then [] else sp_gops sp   (* new parameter sets: cached GOPs dropped *)
+                | MAsh => if hdr_changed (sp_ash_p sp) p then [] else sp_gops sp
+                | _ => if Nat.ltb 0 gop_num then gops_feed max (sp_gops sp) cls b else sp_gops sp
+                end |}.
 
 Definition cache_rel (gop_num max : nat) (g : gop_cache label) (sp : cspec) : Prop :=
   gc_meta_w g = sp_meta_w sp /\ gc_meta_wo g = sp_meta_wo sp /\ gc_vsh g = sp_vsh sp /\ gc_ash g = sp_ash sp /\
-  gc_size g = S gop_num /\ gc_max g = max /\ ring_inv label g (sp_gops sp).
+  gc_size g = S gop_num /\ gc_max g = max /\ ring_inv label g (sp_gops sp) /\
+  gc_vsh_p g = sp_vsh_p sp /\ gc_ash_p g = sp_ash_p sp.
 
-Ltac split7 := split; [|split; [|split; [|split; [|split; [|split]]]]].
+Ltac split7 := split; [|split; [|split; [|split; [|split; [|split; [|split; [|split]]]]]]].
 
 Lemma cache_rel_new gop_num max : cache_rel gop_num max (gc_new gop_num max) cspec_init.
 Proof. unfold cache_rel. split7; try reflexivity. apply ring_inv_new. Qed.
@@ -36,7 +44,7 @@ Proof. unfold cache_rel. split7; try reflexivity. apply ring_inv_new. Qed.
 Lemma cache_rel_clear gop_num max g sp :
   cache_rel gop_num max g sp -> cache_rel gop_num max (gc_clear g) cspec_init.
 Proof.
-  intros (H1 & H2 & H3 & H4 & H5 & H6 & H7). unfold cache_rel. split7; try assumption; try reflexivity.
+  intros (H1 & H2 & H3 & H4 & H5 & H6 & H7 & H8 & H9). unfold cache_rel. split7; try assumption; try reflexivity.
   eapply ring_inv_clear; eassumption.
 Qed.
 
@@ -53,54 +61,62 @@ Qed.
 Lemma cache_rel_feed gop_num max g sp m b w wo :
   cache_rel gop_num max g sp ->
   cache_rel gop_num max
-    (let g1 := fst (gc_feed g (mclass_of m) b) in
+    (let g1 := fst (gc_feed g (mclass_of m) b (rm_payload m)) in
      if rm_type m =? type_metadata then gc_set_metadata g1 w wo else g1)
-    (cspec_feed gop_num max sp (mclass_of m) b w wo).
+    (cspec_feed gop_num max sp (mclass_of m) b w wo (rm_payload m)).
 Proof.
-  intros (H1 & H2 & H3 & H4 & H5 & H6 & H7).
-  pose proof (ring_inv_feed label g (sp_gops sp) (mclass_of m) b H7) as Hr.
-  rewrite H5, H6 in Hr.
-  assert (Hlt : Nat.ltb 1 (S gop_num) = Nat.ltb 0 gop_num).
-  { destruct gop_num; reflexivity. }
+  intros (H1 & H2 & H3 & H4 & H5 & H6 & H7 & H8 & H9).
+  pose proof (ring_inv_feed label g (sp_gops sp) (mclass_of m) b (rm_payload m) H7) as Hr.
+  unfold gops_after in Hr. rewrite H5, H6, H8, H9 in Hr.
+  assert (Hlt : Nat.ltb 1 (S gop_num) = Nat.ltb 0 gop_num) by (destruct gop_num; reflexivity).
   rewrite Hlt in Hr.
   cbv zeta.
-  assert (Hhdr : forall c, c <> MMeta ->
-            gc_meta_w (fst (gc_feed g c b)) = gc_meta_w g /\ gc_meta_wo (fst (gc_feed g c b)) = gc_meta_wo g).
-  { intros c Hc. destruct c; try congruence; cbn [gc_feed fst]; try (split; reflexivity).
-    - destruct (Nat.ltb 1 (gc_size g)); split; reflexivity.
-    - unfold gc_feed_last_gop. destruct (Nat.ltb 1 (gc_size g)); [|split; reflexivity].
-      destruct (gc_is_empty g); [split; reflexivity|]. destruct (_ || _); split; reflexivity. }
-  assert (Hvsh : gc_vsh (fst (gc_feed g (mclass_of m) b)) = match mclass_of m with MVsh => Some b | _ => gc_vsh g end).
-  { destruct (mclass_of m); cbn [gc_feed fst]; try reflexivity.
-    - destruct (Nat.ltb 1 (gc_size g)); reflexivity.
-    - unfold gc_feed_last_gop. destruct (Nat.ltb 1 (gc_size g)); [|reflexivity].
-      destruct (gc_is_empty g); [reflexivity|]. destruct (_ || _); reflexivity. }
-  assert (Hash : gc_ash (fst (gc_feed g (mclass_of m) b)) = match mclass_of m with MAsh => Some b | _ => gc_ash g end).
-  { destruct (mclass_of m); cbn [gc_feed fst]; try reflexivity.
-    - destruct (Nat.ltb 1 (gc_size g)); reflexivity.
-    - unfold gc_feed_last_gop. destruct (Nat.ltb 1 (gc_size g)); [|reflexivity].
-      destruct (gc_is_empty g); [reflexivity|]. destruct (_ || _); reflexivity. }
-  assert (Hsz : gc_size (fst (gc_feed g (mclass_of m) b)) = gc_size g /\ gc_max (fst (gc_feed g (mclass_of m) b)) = gc_max g).
-  { destruct (mclass_of m); cbn [gc_feed fst]; try (split; reflexivity).
-    - destruct (Nat.ltb 1 (gc_size g)); split; reflexivity.
-    - unfold gc_feed_last_gop. destruct (Nat.ltb 1 (gc_size g)); [|split; reflexivity].
-      destruct (gc_is_empty g); [split; reflexivity|]. destruct (_ || _); split; reflexivity. }
-  destruct Hsz as [Hsz Hmx].
+  set (p := rm_payload m) in *.
+  assert (Hf : forall c,
+     let g1 := fst (gc_feed g c b p) in
+     gc_size g1 = gc_size g /\ gc_max g1 = gc_max g /\
+     (c <> MMeta -> gc_meta_w g1 = gc_meta_w g /\ gc_meta_wo g1 = gc_meta_wo g) /\
+     gc_vsh g1 = match c with MVsh => Some b | _ => gc_vsh g end /\
+     gc_ash g1 = match c with MAsh => Some b | _ => gc_ash g end /\
+     gc_vsh_p g1 = match c with MVsh => Some p | _ => gc_vsh_p g end /\
+     gc_ash_p g1 = match c with MAsh => Some p | _ => gc_ash_p g end).
+  { intro c. cbv zeta. destruct c; cbn [gc_feed fst];
+      try (repeat split; reflexivity).
+    - destruct (Nat.ltb 1 (gc_size g)); repeat split; reflexivity.
+    - unfold gc_feed_last_gop. destruct (Nat.ltb 1 (gc_size g)); [|repeat split; reflexivity].
+      destruct (gc_is_empty g); [repeat split; reflexivity|]. destruct (_ || _); repeat split; reflexivity. }
+  destruct (Hf (mclass_of m)) as (Hsz & Hmx & Hmeta & Hvsh & Hash & Hvp & Hap).
   destruct (rm_type m =? type_metadata) eqn:Hm.
   - assert (Hc : mclass_of m = MMeta) by (now apply mclass_meta_iff).
     rewrite Hc in *. unfold cache_rel, cspec_feed, gc_set_metadata.
-    cbn [gc_meta_w gc_meta_wo gc_vsh gc_ash gc_size gc_max sp_meta_w sp_meta_wo sp_vsh sp_ash sp_gops].
+    cbn [gc_meta_w gc_meta_wo gc_vsh gc_ash gc_vsh_p gc_ash_p gc_size gc_max
+         sp_meta_w sp_meta_wo sp_vsh sp_ash sp_vsh_p sp_ash_p sp_gops].
     split7; try reflexivity; try congruence.
     destruct Hr as [R1 R2 R3 R4 R5 R6]. constructor; assumption.
   - assert (Hc : mclass_of m <> MMeta) by (intro E; apply mclass_meta_iff in E; congruence).
-    destruct (Hhdr _ Hc) as [Hw Hwo].
+    destruct (Hmeta Hc) as [Hw Hwo].
+    assert (G1 : gc_meta_w (fst (gc_feed g (mclass_of m) b p)) = match mclass_of m with MMeta => Some w | _ => sp_meta_w sp end)
+      by (rewrite Hw, H1; destruct (mclass_of m); congruence).
+    assert (G2 : gc_meta_wo (fst (gc_feed g (mclass_of m) b p)) = match mclass_of m with MMeta => Some wo | _ => sp_meta_wo sp end)
+      by (rewrite Hwo, H2; destruct (mclass_of m); congruence).
+    assert (G3 : gc_vsh (fst (gc_feed g (mclass_of m) b p)) = match mclass_of m with MVsh => Some b | _ => sp_vsh sp end)
+      by (rewrite Hvsh, H3; destruct (mclass_of m); reflexivity).
+    assert (G4 : gc_ash (fst (gc_feed g (mclass_of m) b p)) = match mclass_of m with MAsh => Some b | _ => sp_ash sp end)
+      by (rewrite Hash, H4; destruct (mclass_of m); reflexivity).
+    assert (G8 : gc_vsh_p (fst (gc_feed g (mclass_of m) b p)) = match mclass_of m with MVsh => Some p | _ => sp_vsh_p sp end)
+      by (rewrite Hvp, H8; destruct (mclass_of m); reflexivity).
+    assert (G9 : gc_ash_p (fst (gc_feed g (mclass_of m) b p)) = match mclass_of m with MAsh => Some p | _ => sp_ash_p sp end)
+      by (rewrite Hap, H9; destruct (mclass_of m); reflexivity).
+    assert (G7 : ring_inv label (fst (gc_feed g (mclass_of m) b p))
+                   match mclass_of m with
+                   | MVsh => if hdr_changed (sp_vsh_p sp) p then [] else sp_gops sp
+                   | MAsh => if hdr_changed (sp_ash_p sp) p then [] else sp_gops sp
+                   | _ => if Nat.ltb 0 gop_num then gops_feed max (sp_gops sp) (mclass_of m) b else sp_gops sp
+                   end)
+      by (destruct (mclass_of m); try congruence; exact Hr).
     unfold cache_rel, cspec_feed.
-    cbn [sp_meta_w sp_meta_wo sp_vsh sp_ash sp_gops].
-    split7; try congruence.
-    + rewrite Hw, H1. destruct (mclass_of m); congruence.
-    + rewrite Hwo, H2. destruct (mclass_of m); congruence.
-    + rewrite Hvsh, H3. destruct (mclass_of m); reflexivity.
-    + rewrite Hash, H4. destruct (mclass_of m); reflexivity.
+    cbn [sp_meta_w sp_meta_wo sp_vsh sp_ash sp_vsh_p sp_ash_p sp_gops].
+    split7; try assumption; congruence.
 Qed.
 
 (* ------------------------------------------------------------------ *)
@@ -118,10 +134,10 @@ Definition sstep (cf : cfg) (sp : sstate) (e : ev) : sstate :=
       else
         {| ss_in := ss_in sp; ss_n := S n;
            ss_rtmp := if cf_rtmp_enable cf
-                      then cspec_feed (cf_rtmp_gop cf) (cf_rtmp_max cf) (ss_rtmp sp) (mclass_of m) (LC n) (lcw m n) (LC n)
+                      then cspec_feed (cf_rtmp_gop cf) (cf_rtmp_max cf) (ss_rtmp sp) (mclass_of m) (LC n) (lcw m n) (LC n) (rm_payload m)
                       else ss_rtmp sp;
            ss_flv := if cf_flv_enable cf
-                     then cspec_feed (cf_flv_gop cf) (cf_flv_max cf) (ss_flv sp) (mclass_of m) (LT n) (LT n) (LT n)
+                     then cspec_feed (cf_flv_gop cf) (cf_flv_max cf) (ss_flv sp) (mclass_of m) (LT n) (LT n) (LT n) (rm_payload m)
                      else ss_flv sp |}
   | EvInStart => {| ss_in := true; ss_n := ss_n sp; ss_rtmp := ss_rtmp sp; ss_flv := ss_flv sp |}
   | EvInStop =>
@@ -140,12 +156,12 @@ Lemma publish_fields cf s m : Nat.eqb (length (rm_payload m)) 0 = false ->
   g_in (publish cf s m) = g_in s /\ g_next (publish cf s m) = S (g_next s) /\
   g_rtmp_cache (publish cf s m) =
     (if cf_rtmp_enable cf then
-       let g1 := fst (gc_feed (g_rtmp_cache s) (mclass_of m) (LC (g_next s))) in
+       let g1 := fst (gc_feed (g_rtmp_cache s) (mclass_of m) (LC (g_next s)) (rm_payload m)) in
        if rm_type m =? type_metadata then gc_set_metadata g1 (lcw m (g_next s)) (LC (g_next s)) else g1
      else g_rtmp_cache s) /\
   g_flv_cache (publish cf s m) =
     (if cf_flv_enable cf then
-       let g1 := fst (gc_feed (g_flv_cache s) (mclass_of m) (LT (g_next s))) in
+       let g1 := fst (gc_feed (g_flv_cache s) (mclass_of m) (LT (g_next s)) (rm_payload m)) in
        if rm_type m =? type_metadata then gc_set_metadata g1 (LT (g_next s)) (LT (g_next s)) else g1
      else g_flv_cache s).
 Proof.
@@ -159,7 +175,7 @@ Ltac split4 := split; [|split; [|split]].
 Lemma sstate_rel_step cf s sp e : sstate_rel cf s sp -> sstate_rel cf (step cf s e) (sstep cf sp e).
 Proof.
   intros (Hin & Hn & Hr & Hf).
-  destruct e as [m|k id|id| | |b|]; cbn [step sstep].
+  destruct e as [m|k id|id| | |b| | |did]; cbn [step sstep].
   - destruct (Nat.eqb (length (rm_payload m)) 0) eqn:Hne.
     + unfold publish. rewrite Hne. unfold sstate_rel.
       cbn [g_in g_next g_rtmp_cache g_flv_cache ss_in ss_n ss_rtmp ss_flv]. split4; try assumption. congruence.
@@ -177,6 +193,8 @@ Proof.
       split4; [reflexivity|assumption| |]; eapply cache_rel_clear; eassumption.
     + unfold sstate_rel. split4; try assumption. congruence.
   - unfold feed_ts, sstate_rel. cbn [g_in g_next g_rtmp_cache g_flv_cache]. split4; assumption.
+  - unfold sstate_rel. cbn [g_in g_next g_rtmp_cache g_flv_cache]. split4; assumption.
+  - unfold sstate_rel. cbn [g_in g_next g_rtmp_cache g_flv_cache]. split4; assumption.
   - unfold sstate_rel. cbn [g_in g_next g_rtmp_cache g_flv_cache]. split4; assumption.
 Qed.
 
@@ -197,7 +215,7 @@ Definition spec_prologue (gop_num : nat) (sp : cspec) (with_sdf : bool) : list l
 Theorem prologue_spec gop_num max g sp w :
   cache_rel gop_num max g sp -> prologue g w = spec_prologue gop_num sp w.
 Proof.
-  intros (H1 & H2 & H3 & H4 & H5 & H6 & H7). unfold prologue, spec_prologue.
+  intros (H1 & H2 & H3 & H4 & H5 & H6 & H7 & _ & _). unfold prologue, spec_prologue.
   rewrite H1, H2, H3, H4. rewrite (gc_all_spec label g _ H7). rewrite H5.
   replace (S gop_num - 1)%nat with gop_num by lia. reflexivity.
 Qed.
@@ -205,5 +223,5 @@ Qed.
 Theorem gop_count_spec gop_num max g sp :
   cache_rel gop_num max g sp -> gc_count g = Nat.min (length (sp_gops sp)) gop_num.
 Proof.
-  intros (H1 & H2 & H3 & H4 & H5 & H6 & H7). destruct H7 as [_ _ _ _ Hc _]. rewrite Hc, H5. f_equal. lia.
+  intros (H1 & H2 & H3 & H4 & H5 & H6 & H7 & _ & _). destruct H7 as [_ _ _ _ Hc _]. rewrite Hc, H5. f_equal. lia.
 Qed.
